@@ -186,18 +186,27 @@ open MythVerif.Wsq (Elem Pid Holder)
 
    Proved below, for every capacity, any number of other participants and every interleaving of
    program steps and store-buffer drains: the machine of `Model/WsQueueTso.lean`, i.e.
-     * owner `push` (without re-centring: a push at `top == size` stops), `pop` – fast path, locked
-       slow path, reset path – and `put` (base-side insertion under the lock, without re-centring:
-       a put at `base == 0` stops, still holding the lock);
+     * owner `push` WITH re-centring (at `top == size`: lock, `abort()` iff `base == 0`, else
+       `memmove` down by `(-base-1)/2`, `top += offset`, `base += offset`, unlock, then the push
+       proper), `pop` – fast path, locked slow path, reset path – and `put` WITH re-centring (at
+       `base == 0`: `abort()` iff `top == size`, else `memmove` up by `(size-top+1)/2`,
+       `top += offset`, `base += offset`, then the insertion proper in the same locked section,
+       no fence in between);
      * any number of other participants, each running any sequence of `myth_queue_take`,
        `myth_queue_trypass` (trylock – a failure returns 0; `base == 0` returns 0; slot store,
        `base--`, unlock) and `myth_queue_peek` (lock-free loads of `base`, `top`, one slot; nothing
        is removed and the value read is only a hint to the caller – nothing is claimed about it).
    put and trypass linearize when their `base` store DRAINS (the slot store precedes it in the same
    FIFO buffer), for trypass possibly while the owner is inside a lock-free push or pop.
+   A re-centring `memmove` is ONE buffer entry (`Sto.shift`); the header of the model file says why
+   that loses nothing: slots are loaded only under the lock (excluded until the owner's unlock fence
+   has drained everything), by the owner (store forwarding) or by peek (value not recorded), and
+   the lock-free loads of `top` / `base` (quick checks, peek) may see the half-updated pair – their
+   values are unconstrained in the invariant (`exRcHint` below exhibits such a read).  The two
+   `abort()`s (`stuck`, `stuckL`) happen only on a full deque.
    Not covered: the wsapi variants (take with decision callback, wsapi peek), the steal cache,
-   re-centring in push and put, clear.  Modelling simplification (DESIGN A.3): the releasing store
-   of unlock is performed on memory right after its fence. -/
+   clear.  Modelling simplification (DESIGN A.3): the releasing store of unlock is performed on
+   memory right after its fence. -/
 
 /-- **No loss, no duplication under x86-TSO store buffering (partial: push / pop / put / take /
 trypass / peek).**
@@ -209,8 +218,12 @@ removed at the linearization point, nothing is returned twice, and inserted = de
 returned as multisets; the three fall-back branches of the model's ghost look-ups are unreachable;
 in a quiescent drained state memory `[base, top)` holds exactly the threads not yet resumed; a
 pending inserting `base` store (put, trypass) belongs to the lock holder just before its unlock,
-targets the slot below the logical base, and the buffer's view of that slot is the element it will
-insert when it drains; the overflow tests `base == 0` of put and trypass read the logical base. -/
+targets the slot below the logical base (as the issuing participant sees it: `lb + sh`, where
+`sh ≠ 0` only while the shift entry of put's own re-centring is still buffered in front), and the
+buffer's view of that slot is the element it will insert when it drains; the overflow tests
+`base == 0` of put and trypass read the logical base; `abort()` ("Runqueue overflow") is reached
+only when the deque holds `size` elements (`lb = 0`, `lt = size`), and the tests that guard it read
+the logical values. -/
 theorem C02_no_loss_no_dup_tso_partial (n : Int) (s : St) (h : Reachable step (init FenceCfg.code n) s) :
     Inv s ∧
     (s.ins.Nodup → s.retd.Nodup ∧ (s.A ++ (s.flT.toList ++ (s.flO.toList ++ s.retd))).Perm s.ins) ∧
@@ -221,14 +234,20 @@ theorem C02_no_loss_no_dup_tso_partial (n : Int) (s : St) (h : Reachable step (i
       s.flO = none ∧ s.flT = none ∧ s.lock = .free ∧ s.base = s.lb ∧ s.top = s.lt ∧
       (∀ k : Nat, k < s.A.length → s.ptr (s.base + k) = s.A[k]?) ∧ (s.A.length : Int) = s.top - s.base) ∧
     ((∀ v e, Sto.baseI v e ∈ s.bufO →
-        s.opc = .pt9 ∧ s.lock = .owner ∧ v = s.lb - 1 ∧ viewPtr s.bufO s.ptr v = some e) ∧
+        s.opc = .pt9 ∧ s.lock = .owner ∧ v = s.lb + s.sh - 1 ∧ viewPtr s.bufO s.ptr v = some e) ∧
      (∀ p v e, Sto.baseI v e ∈ s.bufT p →
         (∃ ok, s.tpc p = .tp4 ok) ∧ s.lock = .thief p ∧ v = s.lb - 1 ∧ viewPtr (s.bufT p) s.ptr v = some e)) ∧
     ((∀ e, s.opc = .pt1 e → viewBase s.bufO s.base = s.lb) ∧
-     (∀ p e, s.tpc p = .tp1 e → viewBase (s.bufT p) s.base = s.lb)) := by
+     (∀ p e, s.tpc p = .tp1 e → viewBase (s.bufT p) s.base = s.lb)) ∧
+    ((s.opc = .stuck ∨ s.opc = .stuckL →
+        (s.A.length : Int) = s.size ∧ s.lb = 0 ∧ s.lt = s.size ∧ s.top = s.size ∧ s.base = 0 ∧
+        s.lock = .owner ∧ s.bufO = []) ∧
+     (∀ e, s.opc = .pub e → viewBase s.bufO s.base = s.lb ∧ s.lt = s.size) ∧
+     (∀ e, s.opc = .pt2 e → viewTop s.bufO s.top = s.lt ∧ s.lb = 0)) := by
   have hi := reachable_inv n s h
   exact ⟨hi, no_loss_no_dup n s h, ghost_branches_unreachable s hi, quiescent_mem s hi,
-    ⟨owner_baseI s hi, thief_baseI s hi⟩, base_tests_logical s hi⟩
+    ⟨owner_baseI s hi, thief_baseI s hi⟩, base_tests_logical s hi,
+    stuck_only_when_full s hi, (overflow_tests_logical s hi).1, (overflow_tests_logical s hi).2⟩
 
 /-! non-vacuity (TSO machine): the owner pushes 1, 2, 3 (capacity 8) with the stores of the last
     push still buffered, starts a pop (its `top` store buffered behind them), and a thief takes
@@ -283,10 +302,76 @@ example : (runs step (init FenceCfg.code 8) exPutPop).map
 example : (runs step (init FenceCfg.code 8) exPutPop).map (fun s => (s.opc, s.ins)) =
     some (.idle, [5]) := by decide
 
+/-! push re-centres (capacity 4): 1, 2 pushed (`top = 4 = size`), thief 0 took 1 (`base = 3`); push 3
+    locks, `offset = (-3-1)/2 = -2`, and issues the memmove, `top = 2`, `base = 1` – all three still
+    buffered at the unlock while thief 1 (quick check passed on the old `top`/`base`) spins at the
+    lock; they drain, the owner unlocks and finishes the push, thief 1 takes 2 from the moved window -/
 open Lbl in
-/-- a put at `base == 0` stops (re-centring is outside the model), holding the lock -/
-example : (runs step (init FenceCfg.code 1) [oPut 1, o, o]).map (fun s => (s.opc, s.lock)) =
-    some (.stuckL, .owner) := by decide
+def exRcPre : List Lbl :=
+  [oPush 1, o, o, o, o, flushO, flushO, oPush 2, o, o, o, o, flushO, flushO,
+   tTake 0, t 0, t 0, t 0, t 0, flushT 0, t 0, t 0, t 0, t 0,
+   oPush 3, o, o, o, o, o, o, o,
+   tTake 1, t 1, t 1, t 1]
+
+open Lbl in
+def exRc : List Lbl :=
+  exRcPre ++
+  [flushO, flushO, flushO, o, o, o,
+   t 1, t 1, flushT 1, t 1, t 1, t 1, t 1, flushO, flushO]
+
+example : (runs step (init FenceCfg.code 4) exRcPre).map
+    (fun s => (s.opc, s.tpc 1, s.bufO, s.lb, s.lt)) =
+    some (.pux 3 2, .tkl, [.shift 3 4 (-2), .top 2, .base 1], 3, 4) := by decide
+example : (runs step (init FenceCfg.code 4) exRcPre).map (fun s => (s.sh, s.A, s.top, s.base, s.lock)) =
+    some (-2, [2], 4, 3, .owner) := by decide
+example : (runs step (init FenceCfg.code 4) exRc).map
+    (fun s => (s.retd, s.A, s.top, s.base, s.bufO)) = some ([2, 1], [3], 3, 2, []) := by decide
+example : (runs step (init FenceCfg.code 4) exRc).map (fun s => (s.ptr 2, s.lb, s.lt, s.sh, s.lock)) =
+    some (some 3, 2, 3, 0, .free) := by decide
+
+open Lbl in
+/-- a lock-free quick check in the middle of that re-centring (shift and `top` drained, `base` not
+    yet) reads `top = 2`, `base = 3` and reports "empty" although the deque holds 2: a hint only -/
+def exRcHint : List Lbl := exRcPre ++ [flushO, flushO, tTake 2, t 2, t 2]
+
+example : (runs step (init FenceCfg.code 4) exRcHint).map
+    (fun s => (s.tpc 2, s.top, s.base, s.A, s.bufO)) = some (.idle, 2, 3, [2], [.base 1]) := by decide
+
+/-! put re-centres (capacity 4): 1 and 2 were put (`base = 0`, `top = 2`); put 3 finds `base == 0`,
+    `offset = (4-2+1)/2 = 1`; at its unlock the buffer holds all five stores – memmove, `top`, `base`,
+    the slot and the inserting `base` store; a fourth put re-centres again and fills the queue; the
+    fifth reaches `abort()` (`stuckL`) on the full deque -/
+open Lbl in
+def exPutRcPre : List Lbl :=
+  [oPut 1, o, o, o, o, o, flushO, flushO, o,
+   oPut 2, o, o, o, o, o, flushO, flushO, o,
+   oPut 3, o, o, o, o, o, o, o, o, o]
+
+example : (runs step (init FenceCfg.code 4) exPutRcPre).map (fun s => (s.opc, s.bufO, s.lb, s.sh)) =
+    some (.pt9, [.shift 0 2 1, .top 3, .base 1, .ptr 0 (some 3), .baseI 0 3], 0, 1) := by decide
+
+open Lbl in
+def exPutRc : List Lbl := exPutRcPre ++ [flushO, flushO, flushO, flushO, flushO, o]
+
+example : (runs step (init FenceCfg.code 4) exPutRc).map
+    (fun s => (s.A, s.top, s.base, s.bufO, s.opc)) = some ([3, 2, 1], 3, 0, [], .idle) := by decide
+example : (runs step (init FenceCfg.code 4) exPutRc).map (fun s => (s.ptr 0, s.ptr 1, s.ptr 2, s.lb, s.lt)) =
+    some (some 3, some 2, some 1, 0, 3) := by decide
+
+open Lbl in
+def exPutFull : List Lbl :=
+  exPutRc ++ [oPut 4, o, o, o, o, o, o, o, o, o, flushO, flushO, flushO, flushO, flushO, o,
+              oPut 5, o, o, o]
+
+example : (runs step (init FenceCfg.code 4) exPutFull).map (fun s => (s.opc, s.lock, s.A, s.top, s.base)) =
+    some (.stuckL, .owner, [4, 3, 2, 1], 4, 0) := by decide
+
+open Lbl in
+/-- push's `abort()`: capacity 2, one push fills `[1, 2)`, a put fills slot 0, the next push finds
+    `top == size` and `base == 0` -/
+example : (runs step (init FenceCfg.code 2)
+    [oPush 1, o, o, o, o, flushO, flushO, oPut 2, o, o, o, o, o, flushO, flushO, o, oPush 3, o, o, o, o]).map
+    (fun s => (s.opc, s.lock, s.A, s.top, s.base)) = some (.stuck, .owner, [2, 1], 2, 0) := by decide
 
 
 /-! trypass races the owner's lock-free pop: elements 1, 2, 3 pushed and drained (capacity 8);
